@@ -2,7 +2,7 @@
       namespaces_to_ignore = deletion of child predicates from the feature pass. *)
 From Coq Require Import List Ascii String ZArith NArith Bool Lia Arith Permutation.
 From Shexer Require Import Lib.PyStr Lib.Dict Gen.Consts Spec.Rdf Spec.Restrict Model.Tracker Model.Profiler
-     Model.Freq Model.Shexing Model.SerialShexc Model.Run Model.NsFilter Model.Run2.
+     Model.Freq Model.Shexing Model.SerialShexc Model.Run Model.NsFilter Model.Run2 Model.RunCur.
 Import ListNotations.
 
 (** ** generic list facts *)
@@ -705,10 +705,13 @@ Proof. unfold mode_of_cfg. destruct (r_targets c); reflexivity. Qed.
 Section RunComp.
   Variable fa : FreqAlg.
 
-  Lemma run_shapes_is_run_shapes2 c thr g : run_shapes fa c thr g = run_shapes2 fa c thr g g.
+  (** the two-document run on one document is the one-document run with the
+      shexing stage in the order the code has ([RunCur]); it is [Run.run_shapes]
+      where Proofs/OrderIrrelevant.v shows the order to be irrelevant *)
+  Lemma run_shapes_is_run_shapes2 c thr g : run_shapes_cur fa c thr g = run_shapes2 fa c thr g g.
   Proof. reflexivity. Qed.
 
-  Lemma run_shexc_is_run_shexc2 c thr g : run_shexc fa c thr g = run_shexc2 fa c thr g g.
+  Lemma run_shexc_is_run_shexc2 c thr g : run_shexc_cur fa c thr g = run_shexc2 fa c thr g g.
   Proof. reflexivity. Qed.
 
   (** only the tracker looks at [r_cap] and only the tracker reads [g_inst] *)
@@ -721,9 +724,24 @@ Section RunComp.
     rewrite Hc. destruct c; reflexivity.
   Qed.
 
+  (** the same for the one-document run in the modelled (old) order *)
+  Lemma run_shexc_track c c' thr g g' :
+    c' = with_cap c (r_cap c') ->
+    track (r_tau c) (mode_of_cfg c) (r_cap c) g = track (r_tau c') (mode_of_cfg c') (r_cap c') g' ->
+    (forall ins, profile (pcfg_of c) ins g = profile (pcfg_of c) ins g') ->
+    run_shexc fa c thr g = run_shexc fa c' thr g'.
+  Proof.
+    intros Hc Ht Hp. unfold run_shexc, run_shapes. unfold mode_of_cfg in Ht. rewrite Ht.
+    set (z := r_cap c') in *. clearbody z. subst c'.
+    change (full_ns (with_cap c z)) with (full_ns c). change (pcfg_of (with_cap c z)) with (pcfg_of c).
+    destruct (full_ns c) as [ns|]; [|reflexivity].
+    change (scfg_of (with_cap c z) ns) with (scfg_of c ns).
+    destruct (track _ _ _ g') as [ins|e]; [|reflexivity]. rewrite (Hp ins). reflexivity.
+  Qed.
+
   Lemma run_cap_is_restriction c thr g z : (0 < r_cap c)%Z -> (z <= 0)%Z ->
     NoDup (memberships (r_tau c) (r_targets c) g) ->
-    run_shexc fa c thr g =
+    run_shexc_cur fa c thr g =
     run_shexc2 fa (with_cap c z) thr (restrict_typing (r_tau c) (r_targets c) (Z.to_nat (r_cap c)) g) g.
   Proof.
     intros Hk Hz Hnd. rewrite run_shexc_is_run_shexc2. apply run_shexc2_track; [reflexivity|].
@@ -731,11 +749,20 @@ Section RunComp.
     rewrite <- (scope_of_mode_of_cfg c) in *. apply cap_is_restriction; assumption.
   Qed.
 
+  Lemma run_cap_large_id_cur c thr g z : (0 < r_cap c)%Z -> (z <= 0)%Z ->
+    (forall x, List.length (class_subjects (r_tau c) (r_targets c) g x) <= Z.to_nat (r_cap c)) ->
+    run_shexc_cur fa c thr g = run_shexc_cur fa (with_cap c z) thr g.
+  Proof.
+    intros Hk Hz Hbig. rewrite !run_shexc_is_run_shexc2. apply run_shexc2_track; [reflexivity|].
+    cbn [with_cap r_cap r_tau]. replace (mode_of_cfg (with_cap c z)) with (mode_of_cfg c) by reflexivity.
+    rewrite <- (scope_of_mode_of_cfg c) in *. apply cap_large_id; assumption.
+  Qed.
+
   Lemma run_cap_large_id c thr g z : (0 < r_cap c)%Z -> (z <= 0)%Z ->
     (forall x, List.length (class_subjects (r_tau c) (r_targets c) g x) <= Z.to_nat (r_cap c)) ->
     run_shexc fa c thr g = run_shexc fa (with_cap c z) thr g.
   Proof.
-    intros Hk Hz Hbig. rewrite !run_shexc_is_run_shexc2. apply run_shexc2_track; [reflexivity|].
+    intros Hk Hz Hbig. apply run_shexc_track; [reflexivity| |reflexivity].
     cbn [with_cap r_cap r_tau]. replace (mode_of_cfg (with_cap c z)) with (mode_of_cfg c) by reflexivity.
     rewrite <- (scope_of_mode_of_cfg c) in *. apply cap_large_id; assumption.
   Qed.
@@ -853,7 +880,7 @@ Section RunIgn.
     intros g'' H. apply (sub_sat_unique _ _ _ _ H (filter_ns_sub_sat ign g)).
   Qed.
 
-  Lemma run_ign_nil c thr g : run_shexc_ign fa c [] thr g = run_shexc fa c thr g.
+  Lemma run_ign_nil c thr g : run_shexc_ign fa c [] thr g = run_shexc_cur fa c thr g.
   Proof.
     unfold run_shexc_ign. replace (filter_ns [] g) with g; [reflexivity|].
     induction g as [|t g IH]; cbn; [reflexivity | f_equal; exact IH].
@@ -878,7 +905,7 @@ Section RunCompGraph.
   Variable fa : FreqAlg.
   Lemma run_cap_is_restriction_graph c thr g z : (0 < r_cap c)%Z -> (z <= 0)%Z ->
     NoDup g -> ids_faithful g ->
-    run_shexc fa c thr g =
+    run_shexc_cur fa c thr g =
     run_shexc2 fa (with_cap c z) thr (restrict_typing (r_tau c) (r_targets c) (Z.to_nat (r_cap c)) g) g.
   Proof. intros Hk Hz Hnd Hf. apply run_cap_is_restriction; [exact Hk | exact Hz | apply memberships_NoDup; assumption]. Qed.
 End RunCompGraph.
@@ -913,7 +940,7 @@ Section RunShapes.
       extraction with the restricted document as instance source *)
   Lemma run_shapes_cap_is_restriction c thr g z : (0 < r_cap c)%Z -> (z <= 0)%Z ->
     NoDup g -> ids_faithful g ->
-    run_shapes fa c thr g =
+    run_shapes_cur fa c thr g =
     run_shapes2 fa (with_cap c z) thr (restrict_typing (r_tau c) (r_targets c) (Z.to_nat (r_cap c)) g) g.
   Proof.
     intros Hk Hz Hnd Hf. rewrite run_shapes_is_run_shapes2. apply run_shapes2_track; [reflexivity|].
